@@ -686,6 +686,66 @@ def keyring__mapServerKeysToPublicKeyLookupResult : List String := [
   "}"
 ]
 
+def keyring_type_DirectKeyFetcher : List String := [
+  "type DirectKeyFetcher struct { Client KeyClient IsLocalServerName func(server spec.ServerName) bool LocalPublicKey spec.Base64Bytes }"
+]
+
+def keyring_type_JSONVerifier : List String := [
+  "type JSONVerifier interface { VerifyJSONs(ctx context.Context, requests []VerifyJSONRequest) ([]VerifyJSONResult, error) }"
+]
+
+def keyring_type_JSONVerifierSelf : List String := [
+  "type JSONVerifierSelf struct{}"
+]
+
+def keyring_type_KeyClient : List String := [
+  "type KeyClient interface { GetServerKeys(ctx context.Context, matrixServer spec.ServerName) (ServerKeys, error) LookupServerKeys(ctx context.Context, matrixServer spec.ServerName, keyRequests map[PublicKeyLookupRequest]spec.Timestamp) ([]ServerKeys, error) }"
+]
+
+def keyring_type_KeyDatabase : List String := [
+  "type KeyDatabase interface { KeyFetcher StoreKeys(ctx context.Context, results map[PublicKeyLookupRequest]PublicKeyLookupResult) error }"
+]
+
+def keyring_type_KeyFetcher : List String := [
+  "type KeyFetcher interface { FetchKeys(ctx context.Context, requests map[PublicKeyLookupRequest]spec.Timestamp) (map[PublicKeyLookupRequest]PublicKeyLookupResult, error) FetcherName() string }"
+]
+
+def keyring_type_KeyRing : List String := [
+  "type KeyRing struct { KeyFetchers []KeyFetcher KeyDatabase KeyDatabase }"
+]
+
+def keyring_type_PerspectiveKeyFetcher : List String := [
+  "type PerspectiveKeyFetcher struct { PerspectiveServerName spec.ServerName PerspectiveServerKeys map[KeyID]ed25519.PublicKey Client KeyClient }"
+]
+
+def keyring_type_PublicKeyLookupRequest : List String := [
+  "type PublicKeyLookupRequest struct { ServerName spec.ServerName `json:\"server_name\"` KeyID KeyID `json:\"key_id\"` }"
+]
+
+def keyring_type_PublicKeyLookupResult : List String := [
+  "type PublicKeyLookupResult struct { VerifyKey ExpiredTS spec.Timestamp `json:\"expired_ts\"` ValidUntilTS spec.Timestamp `json:\"valid_until_ts\"` }"
+]
+
+def keyring_type_PublicKeyNotaryLookupRequest : List String := [
+  "type PublicKeyNotaryLookupRequest struct { ServerKeys map[spec.ServerName]map[KeyID]PublicKeyNotaryQueryCriteria `json:\"server_keys\"` }"
+]
+
+def keyring_type_PublicKeyNotaryQueryCriteria : List String := [
+  "type PublicKeyNotaryQueryCriteria struct { MinimumValidUntilTS spec.Timestamp `json:\"minimum_valid_until_ts\"` }"
+]
+
+def keyring_type_SignatureValidityCheckFunc : List String := [
+  "type SignatureValidityCheckFunc func(atTS, validUntil spec.Timestamp) bool"
+]
+
+def keyring_type_VerifyJSONRequest : List String := [
+  "type VerifyJSONRequest struct { ServerName spec.ServerName AtTS spec.Timestamp Message []byte ValidityCheckingFunc SignatureValidityCheckFunc }"
+]
+
+def keyring_type_VerifyJSONResult : List String := [
+  "type VerifyJSONResult struct{ Error error }"
+]
+
 def keys_ServerKeys_MarshalJSON : List String := [
   "func func() ([]byte, error)",
   "if len(keys.Raw) == 0 {",
@@ -755,6 +815,30 @@ def keys__checkVerifyKeys : List String := [
   "checks.AllChecksOK = checks.HasEd25519Key && allEd25519ChecksOK",
   "}",
   "return verifyKeys"
+]
+
+def keys_type_Ed25519Checks : List String := [
+  "type Ed25519Checks struct { ValidEd25519 bool MatchingSignature bool }"
+]
+
+def keys_type_KeyChecks : List String := [
+  "type KeyChecks struct { AllChecksOK bool MatchingServerName bool FutureValidUntilTS bool HasEd25519Key bool AllEd25519ChecksOK *bool Ed25519Checks map[KeyID]Ed25519Checks }"
+]
+
+def keys_type_OldVerifyKey : List String := [
+  "type OldVerifyKey struct { VerifyKey ExpiredTS spec.Timestamp `json:\"expired_ts\"` }"
+]
+
+def keys_type_ServerKeyFields : List String := [
+  "type ServerKeyFields struct { ServerName spec.ServerName `json:\"server_name\"` VerifyKeys map[KeyID]VerifyKey `json:\"verify_keys\"` ValidUntilTS spec.Timestamp `json:\"valid_until_ts\"` OldVerifyKeys map[KeyID]OldVerifyKey `json:\"old_verify_keys\"` }"
+]
+
+def keys_type_ServerKeys : List String := [
+  "type ServerKeys struct { Raw []byte ServerKeyFields }"
+]
+
+def keys_type_VerifyKey : List String := [
+  "type VerifyKey struct { Key spec.Base64Bytes `json:\"key\"` }"
 ]
 
 def redactevent__exactFieldsOnly : List String := [
@@ -836,6 +920,18 @@ def redactevent__redactEventJSONV5 : List String := [
   "return redactEventJSON(eventJSON, &unredactableEventFieldsV2{}, unredactableContentFieldsV5)"
 ]
 
+def redactevent_type_unredactableEvent : List String := [
+  "type unredactableEvent interface { *unredactableEventFieldsV1 | *unredactableEventFieldsV2 GetType() string GetContent() map[string]interface{} SetContent(map[string]interface{}) }"
+]
+
+def redactevent_type_unredactableEventFieldsV1 : List String := [
+  "type unredactableEventFieldsV1 struct { EventID spec.RawJSON `json:\"event_id,omitempty\"` Type string `json:\"type\"` RoomID spec.RawJSON `json:\"room_id,omitempty\"` Sender spec.RawJSON `json:\"sender,omitempty\"` StateKey spec.RawJSON `json:\"state_key,omitempty\"` Content map[string]interface{} `json:\"content\"` Hashes spec.RawJSON `json:\"hashes,omitempty\"` Signatures spec.RawJSON `json:\"signatures,omitempty\"` Depth spec.RawJSON `json:\"depth,omitempty\"` PrevEvents spec.RawJSON `json:\"prev_events,omitempty\"` PrevState spec.RawJSON `json:\"prev_state,omitempty\"` AuthEvents spec.RawJSON `json:\"auth_events,omitempty\"` Origin spec.RawJSON `json:\"origin,omitempty\"` OriginServerTS spec.RawJSON `json:\"origin_server_ts,omitempty\"` Membership spec.RawJSON `json:\"membership,omitempty\"` }"
+]
+
+def redactevent_type_unredactableEventFieldsV2 : List String := [
+  "type unredactableEventFieldsV2 struct { EventID spec.RawJSON `json:\"event_id,omitempty\"` Type string `json:\"type\"` RoomID spec.RawJSON `json:\"room_id,omitempty\"` Sender spec.RawJSON `json:\"sender,omitempty\"` StateKey spec.RawJSON `json:\"state_key,omitempty\"` Content map[string]interface{} `json:\"content\"` Hashes spec.RawJSON `json:\"hashes,omitempty\"` Signatures spec.RawJSON `json:\"signatures,omitempty\"` Depth spec.RawJSON `json:\"depth,omitempty\"` PrevEvents spec.RawJSON `json:\"prev_events,omitempty\"` AuthEvents spec.RawJSON `json:\"auth_events,omitempty\"` OriginServerTS spec.RawJSON `json:\"origin_server_ts,omitempty\"` }"
+]
+
 def redactevent_unredactableEventFieldsV1_GetContent : List String := [
   "func func() map[string]interface{}",
   "return u.Content"
@@ -866,6 +962,6 @@ def redactevent_unredactableEventFieldsV2_SetContent : List String := [
   "u.Content = content"
 ]
 
-def functions : List String := ["eventcrypto.go:.VerifyAllEventSignatures", "eventcrypto.go:.VerifyEventSignatures", "eventcrypto.go:.addContentHashesToEvent", "eventcrypto.go:.checkEventContentHash", "eventcrypto.go:.emptyAuthorisedViaServerName", "eventcrypto.go:.extractAuthorisedViaServerName", "eventcrypto.go:.getMXIDMapping", "eventcrypto.go:.membershipForSignatures", "eventcrypto.go:.referenceOfEvent", "eventcrypto.go:.referenceOfEventForVersion", "eventcrypto.go:.signEvent", "eventcrypto.go:.validateMXIDMappingSignatures", "keyring.go:DirectKeyFetcher.FetchKeys", "keyring.go:DirectKeyFetcher.FetcherName", "keyring.go:DirectKeyFetcher.fetchKeysForServer", "keyring.go:DirectKeyFetcher.fetchNotaryKeysForServer", "keyring.go:JSONVerifierSelf.VerifyJSONs", "keyring.go:KeyRing.VerifyJSONs", "keyring.go:KeyRing.checkUsingKeys", "keyring.go:KeyRing.isAlgorithmSupported", "keyring.go:KeyRing.publicKeyRequests", "keyring.go:PerspectiveKeyFetcher.FetchKeys", "keyring.go:PerspectiveKeyFetcher.FetcherName", "keyring.go:PublicKeyLookupRequest.MarshalText", "keyring.go:PublicKeyLookupRequest.UnmarshalText", "keyring.go:PublicKeyLookupResult.WasValidAt", "keyring.go:.NoStrictValidityCheck", "keyring.go:.StrictValiditySignatureCheck", "keyring.go:.mapServerKeysToPublicKeyLookupResult", "keys.go:ServerKeys.MarshalJSON", "keys.go:ServerKeys.PublicKey", "keys.go:ServerKeys.UnmarshalJSON", "keys.go:.CheckKeys", "keys.go:.checkVerifyKeys", "redactevent.go:.exactFieldsOnly", "redactevent.go:.exactMembersOnly", "redactevent.go:.redactEventJSON", "redactevent.go:.redactEventJSONV1", "redactevent.go:.redactEventJSONV2", "redactevent.go:.redactEventJSONV3", "redactevent.go:.redactEventJSONV4", "redactevent.go:.redactEventJSONV5", "redactevent.go:unredactableEventFieldsV1.GetContent", "redactevent.go:unredactableEventFieldsV1.GetType", "redactevent.go:unredactableEventFieldsV1.SetContent", "redactevent.go:unredactableEventFieldsV2.GetContent", "redactevent.go:unredactableEventFieldsV2.GetType", "redactevent.go:unredactableEventFieldsV2.SetContent"]
+def functions : List String := ["eventcrypto.go:.VerifyAllEventSignatures", "eventcrypto.go:.VerifyEventSignatures", "eventcrypto.go:.addContentHashesToEvent", "eventcrypto.go:.checkEventContentHash", "eventcrypto.go:.emptyAuthorisedViaServerName", "eventcrypto.go:.extractAuthorisedViaServerName", "eventcrypto.go:.getMXIDMapping", "eventcrypto.go:.membershipForSignatures", "eventcrypto.go:.referenceOfEvent", "eventcrypto.go:.referenceOfEventForVersion", "eventcrypto.go:.signEvent", "eventcrypto.go:.validateMXIDMappingSignatures", "keyring.go:DirectKeyFetcher.FetchKeys", "keyring.go:DirectKeyFetcher.FetcherName", "keyring.go:DirectKeyFetcher.fetchKeysForServer", "keyring.go:DirectKeyFetcher.fetchNotaryKeysForServer", "keyring.go:JSONVerifierSelf.VerifyJSONs", "keyring.go:KeyRing.VerifyJSONs", "keyring.go:KeyRing.checkUsingKeys", "keyring.go:KeyRing.isAlgorithmSupported", "keyring.go:KeyRing.publicKeyRequests", "keyring.go:PerspectiveKeyFetcher.FetchKeys", "keyring.go:PerspectiveKeyFetcher.FetcherName", "keyring.go:PublicKeyLookupRequest.MarshalText", "keyring.go:PublicKeyLookupRequest.UnmarshalText", "keyring.go:PublicKeyLookupResult.WasValidAt", "keyring.go:.NoStrictValidityCheck", "keyring.go:.StrictValiditySignatureCheck", "keyring.go:.mapServerKeysToPublicKeyLookupResult", "keyring.go:type DirectKeyFetcher", "keyring.go:type JSONVerifier", "keyring.go:type JSONVerifierSelf", "keyring.go:type KeyClient", "keyring.go:type KeyDatabase", "keyring.go:type KeyFetcher", "keyring.go:type KeyRing", "keyring.go:type PerspectiveKeyFetcher", "keyring.go:type PublicKeyLookupRequest", "keyring.go:type PublicKeyLookupResult", "keyring.go:type PublicKeyNotaryLookupRequest", "keyring.go:type PublicKeyNotaryQueryCriteria", "keyring.go:type SignatureValidityCheckFunc", "keyring.go:type VerifyJSONRequest", "keyring.go:type VerifyJSONResult", "keys.go:ServerKeys.MarshalJSON", "keys.go:ServerKeys.PublicKey", "keys.go:ServerKeys.UnmarshalJSON", "keys.go:.CheckKeys", "keys.go:.checkVerifyKeys", "keys.go:type Ed25519Checks", "keys.go:type KeyChecks", "keys.go:type OldVerifyKey", "keys.go:type ServerKeyFields", "keys.go:type ServerKeys", "keys.go:type VerifyKey", "redactevent.go:.exactFieldsOnly", "redactevent.go:.exactMembersOnly", "redactevent.go:.redactEventJSON", "redactevent.go:.redactEventJSONV1", "redactevent.go:.redactEventJSONV2", "redactevent.go:.redactEventJSONV3", "redactevent.go:.redactEventJSONV4", "redactevent.go:.redactEventJSONV5", "redactevent.go:type unredactableEvent", "redactevent.go:type unredactableEventFieldsV1", "redactevent.go:type unredactableEventFieldsV2", "redactevent.go:unredactableEventFieldsV1.GetContent", "redactevent.go:unredactableEventFieldsV1.GetType", "redactevent.go:unredactableEventFieldsV1.SetContent", "redactevent.go:unredactableEventFieldsV2.GetContent", "redactevent.go:unredactableEventFieldsV2.GetType", "redactevent.go:unredactableEventFieldsV2.SetContent"]
 
 end VPins.C06
